@@ -1681,10 +1681,30 @@ def lost_update_check(fb, R, fns):
                         'reaches that object (declare it as a reference)' % (v['name'], c['q'].rsplit('::', 1)[-1], fn.q))
 
 
-def _storage_of(fb, fn, nid, depth=0):
+def _is_self(fn, nid, self_params):
+    """The expression denotes the object itself: `this`, `*this`, or a reference parameter bound to `*this` by the caller."""
+    n = fn.sn(nid) if nid is not None else None
+    hops = 0
+    while n is not None and hops < 6:
+        hops += 1
+        if n.get('k') == 'this':
+            return True
+        if n.get('k') == 'var' and n.get('d') in self_params:
+            return True
+        if n.get('k') == 'unop' and n.get('op') in ('*', '&'):
+            n = fn.sn(n['sub'])
+        elif n.get('k') == 'cast':
+            n = fn.sn(n.get('sub'))
+        else:
+            return False
+    return False
+
+
+def _storage_of(fb, fn, nid, depth=0, self_params=frozenset()):
     """Where a store through lvalue expression nid lands: ('field', qualified container field) when it is an element of a
-    container member (directly, through reference locals or through reference-returning accessors of the same object),
-    ('copy', text) when it lands in a local copy, None when unknown."""
+    container member of the object (directly, through reference locals, or through reference-returning accessors /
+    static or template helpers that receive the object as `*this`), ('copy', text) when it lands in a local copy, None
+    when unknown."""
     n = fn.sn(nid)
     if n is None or depth > 6:
         return None
@@ -1699,20 +1719,22 @@ def _storage_of(fb, fn, nid, depth=0):
             return None
         if not decl['tC'].strip().endswith('&'):
             return ('copy', 'local `%s` is declared by value' % decl['name'])
-        return _storage_of(fb, fn, decl['init'], depth + 1)
+        return _storage_of(fb, fn, decl['init'], depth + 1, self_params)
     if n.get('k') == 'call' and n.get('q', '').rsplit('::', 1)[-1] in STD_ELEMENT_ACCESS and n.get('recv') is not None:
         r = fn.sn(n['recv'])
-        if r is not None and r.get('k') == 'member' and r.get('field') and fn.is_this_member(n['recv']):
+        if r is not None and r.get('k') == 'member' and r.get('field') and _is_self(fn, r.get('base'), self_params):
             return ('field', r['q'])
         return None
-    if n.get('k') == 'call' and n.get('u') and (n.get('recv') is None or (fn.sn(n['recv']) or {}).get('k') == 'this'):
+    if n.get('k') == 'call' and n.get('u') and (n.get('recv') is None or _is_self(fn, n['recv'], self_params)):
         res = set()
         for g in fb.by_usr.get(n['u'], [])[:1]:
             if not g.retC.strip().endswith('&'):
                 return ('copy', '%s returns by value' % g.q)
+            bound = frozenset(p['d'] for p, a in zip(g.params, n.get('args', [])) if a is not None and p['tC'].strip().endswith('&')
+                              and _is_self(fn, a, self_params))
             for r in g.all_nodes():
                 if r.get('k') == 'return' and 'sub' in r:
-                    res.add(_storage_of(fb, g, r['sub'], depth + 1))
+                    res.add(_storage_of(fb, g, r['sub'], depth + 1, bound))
         return list(res)[0] if len(res) == 1 else None
     return None
 
